@@ -78,7 +78,7 @@ def emit_opts(s, opts):
         else:
             d = o.get("d")
             if o["k"] == "func":
-                darg = "1" if d == "include" else "2" if d == "nest" else "3" if d == "nestfree" else "0"
+                darg = "1" if d == "include" else "2" if d == "nest" else "3" if d == "nestfree" else "4" if d == "adddir" else "0"
             elif o["f"] & F_LIST or o["k"] in ("str", "ptr"):
                 darg = hx(d)
             else:
